@@ -150,3 +150,7 @@ pub fn expose(m: &Scope, global: &mut FunctionMap) {
         Ok(format!("url({})", string.format(Default::default())).into())
     });
 }
+
+#[cfg(kani)]
+#[path = "/verif/kani/strfns.rs"]
+mod kani_verif;
